@@ -679,7 +679,12 @@ func (m *mappedFile) lookup(name string) (v *atomic.Uint64, headOff, head uint32
 	headOff = m.hdrLen + hashOff + h*4
 	head = m.load32(headOff)
 	off := head
-	for off != 0 {
+	// Every record occupies at least recordUnit bytes, so a walk longer
+	// than the mapping has room for means the chain is cyclic (corrupt file).
+	for n := len(m.mapping.Data) / recordUnit; off != 0; n-- {
+		if n < 0 {
+			return nil, 0, 0, false
+		}
 		ename, next, v, ok := m.entryAt(off)
 		if !ok {
 			return nil, 0, 0, false
@@ -797,7 +802,10 @@ func (m *mappedFile) newCounter(name string) (v *atomic.Uint64, m1 *mappedFile, 
 		// Check new elements in chain for duplicates.
 		old := head
 		head = m.load32(headOff)
-		for off := head; off != old; {
+		for off, n := head, len(m.mapping.Data)/recordUnit; off != old; n-- {
+			if n < 0 {
+				return nil, nil, errCorrupt // cyclic chain
+			}
 			ename, enext, v, ok := m.entryAt(off)
 			if !ok {
 				// The entry that won the race may lie beyond our mapping,
